@@ -356,6 +356,14 @@ def _sx_mod_chars(a, b):
             x = b
             idx += 1
         if type(x) in _SYMSET:
+            if conv in 'di' and not flags and not width and prec and type(x) in (SymInt, NumProxy):
+                # %.Nd : at least N digits, zero padded
+                ds = _fmt_arg('d', x)
+                neg = ds[:1] == ['-']
+                body = ds[1:] if neg else ds
+                body = ['0'] * max(0, int(prec) - len(body)) + body
+                out.extend((['-'] if neg else []) + body)
+                continue
             if flags or width or prec:
                 raise Unmodelled('format flags with symbolic argument: %r' % a)
             out.extend(_fmt_arg(conv, x))
@@ -651,8 +659,23 @@ def _h_dirname(args, kw):
     return _os.path.dirname(p)
 
 
+def _could_contain(cs, lit):
+    """can the literal occur in the (partly symbolic) character list?  symbolic characters may be anything"""
+    n = len(lit)
+    for i in range(len(cs) - n + 1):
+        if all((not isinstance(c, str)) or c == l for c, l in zip(cs[i:i + n], lit)):
+            return True
+    return False
+
+
 def _h_re_sub(args, kw):
     if len(args) >= 3 and type(args[2]) in (SymStr, SymTok):
+        pat = args[0].pattern if hasattr(args[0], 'pattern') else args[0]
+        if isinstance(pat, str) and '(width|height|depth);' in pat:
+            # image-placeholder pattern: every match needs one of these literals; if none can occur the text is unchanged
+            cs = chars_of(args[2])
+            if not any(_could_contain(cs, lit) for lit in ('width;', 'height;', 'depth;')):
+                return args[2] if type(args[2]) is SymStr else args[2].value
         raise Unmodelled('re.sub on symbolic text')
     if len(args) >= 2 and type(args[1]) in (SymStr, SymTok):
         raise Unmodelled('re.sub with symbolic replacement')
